@@ -239,6 +239,8 @@ def prop_thdm(case):
         extra = {}
         if cls.startswith("kallen-charged"):
             extra["window0"] = charged_window(case["p"], values[0.0].get("MHm.1", m0))
+        if cls.startswith("heavy-scalars"):
+            extra["max_scalar"] = max(case["p"]["mh"], case["p"]["mH"], case["p"]["mA"], case["p"]["mHp"], m0)
         return Fail("a_mu not finite / not continuous across a mass coincidence", coincidence=cls,
                     vary=vary, m0=m0, problems=probs[:5], n=len(probs), **extra)
     return None
@@ -371,8 +373,13 @@ def known_match(entry, case, fail):
     for q in fail.detail.get("problems", []):
         if q.get("component") not in comps or q.get("what") not in kinds:
             return False
-        if q.get("what") == "discontinuous" and "max_deviation" in m and q.get("deviation/|a|", 0) > m["max_deviation"]:
-            return False
+        if q.get("what") == "discontinuous" and "max_deviation" in m:
+            cap = m["max_deviation"]
+            if "noise_reference_mass" in m:
+                # rounding noise of the cancelling O(M^6) terms against a result that falls like 1/M^2
+                cap = min(0.5, cap * max(1.0, (fail.detail.get("max_scalar", 0.0) / m["noise_reference_mass"]) ** 4))
+            if q.get("deviation/|a|", 0) > cap:
+                return False
         if q.get("what") == "not finite" and "nonfinite_only_at" in m:
             if any(d not in m["nonfinite_only_at"] for d, _ in q.get("at", [])) or len(q.get("at", [])) >= 4:
                 return False
